@@ -4,6 +4,7 @@ with the prediction of AG/Proc.v on the configuration generated from the
 sources (gen/ProcCfg.v)."""
 import itertools
 import json
+import random
 import os
 import re
 import shutil
@@ -59,7 +60,7 @@ def run_ag(nruns, plan_by_run, njobs=1):
         shutil.rmtree(d, ignore_errors=True)
 
 
-def run_dpseg(nfolds, plan_by_call):
+def run_dpseg(nfolds, plan_by_call, text=None):
     d = tempfile.mkdtemp(prefix='c16-dp-')
     try:
         work = os.path.join(d, 'tmp')
@@ -71,7 +72,7 @@ def run_dpseg(nfolds, plan_by_call):
         old = tempfile.tempdir
         tempfile.tempdir = work
         try:
-            out = list(dpseg.segment(list(TEXT), nfolds=nfolds, njobs=1, args='--randseed 1'))
+            out = list(dpseg.segment(list(text or TEXT), nfolds=nfolds, njobs=1, args='--randseed 1'))
             res = ('ok', out)
         except Exception as e:  # noqa
             res = ('raise', type(e).__name__)
@@ -240,6 +241,16 @@ def main():
         else:
             res, left = run_dpseg(n, plan)
         observed.append((res, left))
+    # the program dies before reading its input, and the input is larger than what the pipe and the write buffer
+    # can absorb (the writer thread is stopped by EPIPE with unflushed data): same required outcome
+    _hook = threading.excepthook
+    threading.excepthook = lambda a: None if issubclass(a.exc_type, BrokenPipeError) else _hook(a)   # the writer thread's EPIPE traceback
+    rb = random.Random(5)
+    big = [' '.join(rb.choice('abcdefgh') for _ in range(25)) for _ in range(4000)]
+    for n, i, how in ((1, 0, HOWS[0]), (2, 1, HOWS[3])) + (((3, 0, HOWS[2]), (3, 2, HOWS[1])) if ck.thorough else ()):
+        plan = {i: dict(how=list(how), early=True, big_input=True)}
+        scs.append(('dpseg', n, plan))
+        observed.append(run_dpseg(n, plan, text=big))
     # several jobs (after the sequential scenarios: see par_setup)
     njobs_obs = []
     for kind, n, plan, nj in parallel_scenarios(ck, scs):
